@@ -29,8 +29,8 @@ pub fn run(ctx: &mut Ctx) {
     }
     for case in ctx.cases("semantic_sdd", 900, true) {
         ctx.run_case("semantic_sdd", case, |ctx, rng| match case % 3 {
-            0 => semantic_sdd_case::<{ primes::U32_TINY }>(ctx, rng, false),
-            1 => semantic_sdd_case::<{ primes::U32_SMALL }>(ctx, rng, false),
+            0 => small_field(ctx, rng, |c, r| semantic_sdd_case::<{ primes::U32_TINY }>(c, r, false), |c, r| semantic_sdd_case::<{ primes::U64_LARGEST }>(c, r, true)),
+            1 => small_field(ctx, rng, |c, r| semantic_sdd_case::<{ primes::U32_SMALL }>(c, r, false), |c, r| semantic_sdd_case::<{ primes::U64_LARGEST }>(c, r, true)),
             _ => semantic_sdd_case::<{ primes::U64_LARGEST }>(ctx, rng, true),
         });
     }
@@ -40,7 +40,7 @@ pub fn run(ctx: &mut Ctx) {
             let _g = crate::gen::LabelMapGuard::new(crate::gen::random_label_map(6, rng));
             ctx.count("semantic_builders_over_spread_labels", 1);
             match case % 2 {
-                0 => semantic_sdd_case::<{ primes::U32_SMALL }>(ctx, rng, false),
+                0 => small_field(ctx, rng, |c, r| semantic_sdd_case::<{ primes::U32_SMALL }>(c, r, false), |c, r| semantic_sdd_case::<{ primes::U64_LARGEST }>(c, r, true)),
                 _ => semantic_sdd_case::<{ primes::U64_LARGEST }>(ctx, rng, true),
             }
         });
@@ -69,9 +69,40 @@ pub fn run(ctx: &mut Ctx) {
     }
     for case in ctx.cases("semantic_ddnnf", 500, true) {
         ctx.run_case("semantic_ddnnf", case, |ctx, rng| match case % 2 {
-            0 => semantic_ddnnf_case::<{ primes::U32_SMALL }>(ctx, rng, false),
+            0 => small_field(ctx, rng, |c, r| semantic_ddnnf_case::<{ primes::U32_SMALL }>(c, r, false), |c, r| semantic_ddnnf_case::<{ primes::U64_LARGEST }>(c, r, true)),
             _ => semantic_ddnnf_case::<{ primes::U64_LARGEST }>(ctx, rng, true),
         });
+    }
+}
+
+/// A hash-identified builder over a 20- or 29-bit field.  Since F18 the hash weights are drawn per
+/// process, so whether two different functions of a history collide in such a small field is
+/// no longer a function of VERIF_SEED -- and once a builder has merged two different functions
+/// its diagrams need not even be well-formed any more, so *every* later assertion about that
+/// builder can fail without any defect in the library (first seen as a non-reproducible alarm
+/// at VERIF_SEED=5; S21).  The small-field run is therefore a probe: it runs on a quiet context,
+/// and only when it is clean is it taken over.  When it reports anything (or panics), the
+/// identical history is run over the 64-bit field, where a collision has probability ~2^-50
+/// and function correctness is demanded as well: a defect of the builder reproduces there and
+/// is reported from that run; a failure that does not is attributed to a collision and counted.
+fn small_field(ctx: &mut Ctx, rng: &mut Rng, small: impl FnOnce(&mut Ctx, &mut Rng), large: impl FnOnce(&mut Ctx, &mut Rng)) {
+    let rng0 = rng.clone();
+    let mut probe = Ctx::scratch();
+    probe.quiet = true;
+    probe.tier = ctx.tier.clone();
+    probe.profile = ctx.profile.clone();
+    let ok = std::panic::catch_unwind(std::panic::AssertUnwindSafe(|| small(&mut probe, rng))).is_ok();
+    crate::caps::reset();
+    if ok && probe.violations == 0 && probe.harness_errors == 0 {
+        ctx.absorb(probe);
+        return;
+    }
+    ctx.count("small_field_cases_rerun_over_the_64bit_field", 1);
+    let before = ctx.violations;
+    let mut r2 = rng0;
+    large(ctx, &mut r2);
+    if ctx.violations == before {
+        ctx.count("small_field_failures_attributed_to_a_hash_collision", 1);
     }
 }
 
